@@ -41,6 +41,11 @@ def run(ctx):
     rng = ctx.rng
     found = False
     cases = m1lib.gen_cases(ctx, ctx.n(60, 1200))
+    # threshold-directed inputs: symmetric centres whose mean neighbour vector is a moderate factor off the 0.1 A threshold
+    sym_pool = [molgen.synthetic_symmetric(rng) for _ in range(ctx.n(40, 400))]
+    sym = m1lib.gen_cases(ctx, ctx.n(30, 300), pool=sym_pool, opt_filter=lambda o: dict(o, stereo=True, level=max(1, o['level'] or 2), mult=max(o['mult'], 1.5), incl=True))
+    ctx.coverage['input_distribution']['threshold_directed_cases'] = len(sym)
+    cases += sym
     extra = []
     for c in cases:
         if c.err is None and rng.random() < 0.5:
@@ -52,7 +57,7 @@ def run(ctx):
     found |= m1lib.run_cases(ctx, cases + extra, 'C01 model/implementation tie (original and exactly moved inputs)') > 0
     # metamorphic search on the implementation: random SE(3) motions (all isometries when stereo is off)
     stats = {'motions': 0, 'reflections': 0, 'skipped_unstable': 0}
-    pool = molgen.pool(rng, ctx.n(50, 600))
+    pool = molgen.pool(rng, ctx.n(50, 600)) + [molgen.synthetic_symmetric(rng) for _ in range(ctx.n(25, 300))]
     for (name, m, cid) in pool:
         o = molgen.rand_opts(rng)
         if m1lib.is_unstable(m, cid, o):
